@@ -868,6 +868,9 @@ func (e *AnimEncoder) encodeSubFrame(currCanvas *image.NRGBA, durMS int) error {
 	}
 
 	subImgNone := extractSubImage(currCanvas, rectNone)
+	if blendNone == BlendAlpha {
+		clearNonOpaque(subImgNone)
+	}
 	bsNone, err := e.encodeFrame(subImgNone, e.opts.Lossless, e.opts.Quality)
 	if err != nil {
 		return fmt.Errorf("animation: encoding sub-frame (dispose-none): %w", err)
@@ -900,6 +903,9 @@ func (e *AnimEncoder) encodeSubFrame(currCanvas *image.NRGBA, durMS int) error {
 	}
 
 	subImgBG := extractSubImage(currCanvas, rectBG)
+	if blendBG == BlendAlpha {
+		clearNonOpaque(subImgBG)
+	}
 	bsBG, err = e.encodeFrame(subImgBG, e.opts.Lossless, e.opts.Quality)
 	if err != nil {
 		// If encoding the BG candidate fails, fall through with DISPOSE_NONE.
@@ -1110,6 +1116,21 @@ func snapToEven(r image.Rectangle) image.Rectangle {
 	minX := r.Min.X &^ 1
 	minY := r.Min.Y &^ 1
 	return image.Rect(minX, minY, minX+w, minY+h)
+}
+
+// clearNonOpaque prepares a sub-frame that will be alpha-blended onto the
+// canvas. Blending is only chosen when every non-opaque pixel of the new
+// picture equals (lossless) or is similar to (lossy) the pixel already on the
+// canvas; such pixels must be written as fully transparent so that blending
+// leaves the canvas pixel alone. Writing them as they are would composite a
+// semi-transparent pixel onto itself and change its alpha. This is the
+// counterpart of libwebp's IncreaseTransparency.
+func clearNonOpaque(img *image.NRGBA) {
+	for i := 3; i < len(img.Pix); i += 4 {
+		if img.Pix[i] != 0xFF {
+			img.Pix[i-3], img.Pix[i-2], img.Pix[i-1], img.Pix[i] = 0, 0, 0, 0
+		}
+	}
 }
 
 // extractSubImage creates a new NRGBA image containing the pixels from src
